@@ -1,6 +1,6 @@
 #!/usr/bin/env python3
 """C16: both clients treat the feed as a byte stream; malformed lines are skipped; disconnects."""
-import sys, os, json, time, argparse
+import sys, os, json, time, argparse, re
 
 sys.path.insert(0, os.path.dirname(os.path.abspath(__file__)))
 import frames as F
@@ -27,6 +27,14 @@ def build_pool():
         else:
             pool.append(F.velocity(a, 100 + k, -50 - k, 64 * (k % 7)))
     assert len({p for p in pool}) == 60
+    # twelve more (appended: indices of saved cases stay valid): addresses and payloads made of
+    # the byte values a hand-written hex decoder gets wrong first - ff, 00, f0, 0f, a9/9a
+    for k, a in enumerate([0xFF00FF, 0x00FFFF, 0xF00FFF, 0xA99AFF]):
+        pool.append(F.ident(a, f"ZZ{k}"))
+        lat, lon = F.destination(RX[0], RX[1], 200.0 + 30 * k, 25.0 + k)
+        pool.append(F.position(a, lat, lon, 0, alt_ft=31975 + 25 * k))
+        pool.append(F.position(a, lat, lon, 1, alt_ft=31975 + 25 * k))
+    assert len({p for p in pool}) == 72
     return pool
 
 
@@ -84,14 +92,21 @@ def materialise(case):
     items = []
     seen = set()
     for it in case["items"]:
-        if it[0] in ("g", "gr"):
+        if it[0] in ("g", "gr", "gg", "gU"):
             if it[1] in seen:
                 continue
             seen.add(it[1])
             ln = F.line(POOL[it[1]])
             if it[0] == "gr":
                 ln = ln[:-1] + b"\r\n"  # the same well-formed line on a CRLF feed
+            if it[0] == "gU":
+                ln = ln.upper()  # dump1090 writes upper-case hex digits
             items.append(("g", ln, it[1]))
+            if it[0] == "gg":
+                # the same line again, right behind (a relayed copy, an aircraft alone on the
+                # feed repeating its identification): every complete line counts
+                items.append(("g", ln, it[1]))
+                items.append(("g", ln, it[1]))
         else:
             items.append(("b", MALFORMED[it[1] % len(MALFORMED)], None))
     stream = b"".join(x[1] for x in items)
@@ -207,7 +222,8 @@ def run_1090(case):
             else:
                 fails.append(("C16/1090/terminated", f"1090 terminated: {s.err.decode(errors='replace')[-300:]}"))
         if not crashed:
-            lines = s.lines()
+            # (1090 echoes the hex text as it came: digits are compared case-insensitively)
+            lines = [l.lower() if re.fullmatch(r"[0-9A-Fa-f]+", l) else l for l in s.lines()]
             if OTHER in lines:
                 fails.append(("C16/1090/unframed_processed", "a frame that only ever occurs in lines without the leading '*' or the closing ';' was processed"))
             if EMBEDDED in lines:
@@ -422,7 +438,7 @@ def run_case(case):
 def worker(args):
     from hypothesis import given, settings, seed, HealthCheck, strategies as st, Phase
     rec = pbt.Recorder(PID)
-    item = st.one_of(st.tuples(st.just("g"), st.integers(0, 59)), st.tuples(st.just("g"), st.integers(0, 59)), st.tuples(st.just("gr"), st.integers(0, 59)), st.tuples(st.just("b"), st.integers(0, len(MALFORMED) - 1)), st.tuples(st.just("b"), st.integers(0, len(MALFORMED) - 1)))
+    item = st.one_of(st.tuples(st.just("g"), st.integers(0, 59)), st.tuples(st.just("g"), st.integers(0, 59)), st.tuples(st.just("gr"), st.integers(0, 59)), st.tuples(st.just("gg"), st.integers(0, 71)), st.tuples(st.just("gU"), st.integers(0, 71)), st.tuples(st.just("g"), st.integers(60, 71)), st.tuples(st.just("b"), st.integers(0, len(MALFORMED) - 1)), st.tuples(st.just("b"), st.integers(0, len(MALFORMED) - 1)))
     drop = st.one_of(st.none(), st.none(), st.fixed_dictionaries({"at": st.integers(1, 9999), "retry": st.booleans(), "reset": st.booleans()}))
     case_s = st.fixed_dictionaries({
         "client": st.sampled_from(["1090", "radar", "radar"]),
@@ -505,6 +521,9 @@ def main():
         # played on every run: the server drops the connection and is then unreachable (attempts
         # time out instead of being refused) for longer than one connection timeout
         extra_cases=[{"client": "radar", "items": [["g", 3], ["g", 7], ["b", 4], ["g", 11], ["g", 12]], "cuts": [], "delays": [0], "drop": {"at": 5000, "retry": True, "reset": r, "stall": True}, "limit": False} for r in (False, True)]
+        # every line of the pool three times in a row, and once in upper-case digits (both clients)
+        + [{"client": cl, "items": [["gg", k] for k in range(h * 36, h * 36 + 36)], "cuts": [], "delays": [0], "drop": None, "limit": False} for cl in ("1090", "radar") for h in (0, 1)]
+        + [{"client": cl, "items": [["gU", k] for k in range(72)], "cuts": [], "delays": [0], "drop": None, "limit": False} for cl in ("1090", "radar")]
         # a line cut in two (pause longer than the read timeout) right after the feed was silent for 2.6 s
         + [{"client": cl, "items": [["g", 3], ["g", 7], ["g", 11], ["g", 12], ["g", 13]], "cuts": [["q", 2], ["s", 2, w], ["s", 4, 1]], "delays": [5], "drop": None, "limit": False} for cl in ("1090", "radar") for w in (1, 2)]
         # ... and the server goes away completely (attempts refused) for 1, 4 and 9 seconds
